@@ -17,7 +17,7 @@ def _c17_ints(s):
 
 def _c17_case(c):
     p = c.split(" ")
-    if p[0] in ("T", "A", "W", "U", "u"):
+    if p[0] in ("T", "A", "W", "V", "U", "u", "X"):
         _, pred, mr, mn, mx, tbl, dflt, cn, kind, data, script, opts = p
         man = ""
         if kind[0] in "Mm":
@@ -124,7 +124,7 @@ def _vm_res(s):
 
 def _vm_goal(c, o):
     p = c.split(" ")
-    if p[0] in ("T", "A", "W"):
+    if p[0] in ("T", "A", "W", "V"):
         _, pred, mr, mn, mx, tbl, dflt, cn, kind, data, script, _opts = p
         pol = "(table_policy %s %s %s %s [%s] %s)" % (_vm_pred(pred), _z(mr), _z(mn), _z(mx),
                                                      "; ".join(_z(x) for x in _c17_ints(tbl)), _z(dflt))
